@@ -111,6 +111,16 @@ theorem wrapParagraphs_all_truncated [BEq σ] (wv : WVariant) (cw : Char → Nat
 
 /-! ### whitespace at the end of a line -/
 
+theorem mem_takeWhile_true {α : Type} (p : α → Bool) : ∀ (l : List α) (c : α), c ∈ l.takeWhile p → p c = true
+  | [], c, h => by simp at h
+  | a :: l, c, h => by
+    simp only [List.takeWhile_cons] at h
+    split at h
+    · rcases List.mem_cons.mp h with rfl | h'
+      · assumption
+      · exact mem_takeWhile_true p l c h'
+    · simp at h
+
 /-- number of characters left by `str.rstrip()` -/
 def rlen (s : List Char) : Nat := (pyRstrip s).length
 
@@ -135,7 +145,7 @@ theorem drop_rlen_space (s : List Char) : ∀ c ∈ s.drop (rlen s), pyIsSpace c
     exact this.symm
   have hsp : ∀ c ∈ (s.reverse.takeWhile pyIsSpace).reverse, pyIsSpace c = true := by
     intro c hc
-    exact List.mem_takeWhile_imp (List.mem_reverse.mp hc)
+    exact mem_takeWhile_true _ _ _ (List.mem_reverse.mp hc)
   generalize (s.reverse.dropWhile pyIsSpace).reverse = a at h2 ⊢
   generalize (s.reverse.takeWhile pyIsSpace).reverse = b at h2 hsp
   subst h2
@@ -152,23 +162,24 @@ theorem trailing_add_rlen (s : List Char) : trailingSpaceCount s + rlen s = s.le
   simp only [List.length_append, List.length_reverse] at h ⊢
   omega
 
-/-- cutting inside the trailing whitespace does not change what `rstrip` leaves -/
-theorem pyRstrip_take (s : List Char) (k : Nat) (hk : rlen s ≤ k) : pyRstrip (s.take k) = pyRstrip s := by
-  have hs : s = pyRstrip s ++ s.drop (rlen s) := by
-    rw [pyRstrip_eq_take]; exact (List.take_append_drop _ _).symm
-  have hsp := drop_rlen_space s
-  have hlen : (pyRstrip s).length = rlen s := rfl
-  generalize pyRstrip s = r at hs hlen
-  generalize s.drop (rlen s) = tl at hs hsp
-  subst hs
-  rw [List.take_append_eq_append_take, List.take_of_length_le (by omega)]
-  -- r ++ (tl.take _) with tl whitespace
-  have hsp' : ∀ c ∈ tl.take (k - r.length), pyIsSpace c = true := fun c hc => hsp c (List.mem_of_mem_take hc)
-  generalize tl.take (k - r.length) = tl' at hsp'
+theorem pyRstrip_append_space (a b : List Char) (hb : ∀ c ∈ b, pyIsSpace c = true) : pyRstrip (a ++ b) = pyRstrip a := by
   unfold pyRstrip
   simp only [List.reverse_append]
-  rw [List.dropWhile_append_of_pos (by intro c hc; exact hsp' c (List.mem_reverse.mp hc))]
-  rw [List.dropWhile_append_of_pos (by intro c hc; exact hsp c (List.mem_reverse.mp hc))]
+  rw [List.dropWhile_append_of_pos (by intro c hc; exact hb c (List.mem_reverse.mp hc))]
+
+/-- cutting inside the trailing whitespace does not change what `rstrip` leaves -/
+theorem pyRstrip_take (s : List Char) (k : Nat) (hk : rlen s ≤ k) : pyRstrip (s.take k) = pyRstrip s := by
+  have hsp := drop_rlen_space s
+  have h1 : s.take k = s.take (rlen s) ++ (s.drop (rlen s)).take (k - rlen s) := by
+    conv => lhs; rw [← List.take_append_drop (rlen s) s]
+    rw [List.take_append, List.take_of_length_le (by simp; omega)]
+    simp only [List.length_take]
+    have := rlen_le s
+    rw [Nat.min_eq_left this]
+  have h2 : s = s.take (rlen s) ++ s.drop (rlen s) := (List.take_append_drop _ _).symm
+  rw [h1, pyRstrip_append_space _ _ (fun c hc => hsp c (List.mem_of_mem_take hc))]
+  conv => rhs; rw [h2]
+  rw [pyRstrip_append_space _ _ hsp]
 
 /-! ### the non-whitespace part of a styled string -/
 
@@ -206,6 +217,52 @@ theorem view_drop_space (t : Text σ) (k : Nat) (hk : rlen t.plain ≤ k) :
     rw [this] at h1
     exact List.mem_of_mem_drop h1
   exact drop_rlen_space _ _ h2
+
+/-! ### `set_cell_size` only eats trailing whitespace when what is left of it fits -/
+
+theorem popLoop_append (B : List Nat) : ∀ (A : List Nat) (e : Int), e ≤ (A.sum : Int) →
+    popLoop (A ++ B) e = ((popLoop A e).1 ++ B, (popLoop A e).2)
+  | [], e, h => by
+    simp only [List.sum_nil, Int.natCast_zero] at h
+    rw [popLoop_nonpos _ _ h, popLoop_nonpos _ _ h]
+  | a :: A, e, h => by
+    simp only [List.cons_append]
+    unfold popLoop
+    split
+    · apply popLoop_append B A
+      simp only [List.sum_cons] at h; push_cast at h; omega
+    · rfl
+
+theorem setCellSize_keeps (cw : Char → Nat) (r tl : List Char) (n : Nat)
+    (hr : cellLen cw r ≤ n) :
+    ∃ k m, setCellSize cw (r ++ tl) n = (r ++ tl).take k ++ List.replicate m ' ' ∧ r.length ≤ k := by
+  by_cases hlong : n < cellLen cw (r ++ tl)
+  · unfold setCellSize
+    have h1 : (cellLen cw (r ++ tl) == n) = false := by simp; omega
+    have h3 : ¬ cellLen cw (r ++ tl) < n := by omega
+    simp only [h1, Bool.false_eq_true, if_false, h3]
+    have hrev : ((r ++ tl).map cw).reverse = (tl.map cw).reverse ++ (r.map cw).reverse := by simp
+    have hle : ((cellLen cw (r ++ tl) : Int) - (n : Int)) ≤ (((tl.map cw).reverse.sum : Nat) : Int) := by
+      rw [cellLen_append] at hlong ⊢
+      simp only [List.sum_reverse]
+      unfold cellLen at *
+      omega
+    rw [hrev, popLoop_append _ _ _ hle]
+    generalize popLoop (tl.map cw).reverse ((cellLen cw (r ++ tl) : Int) - (n : Int)) = pr
+    obtain ⟨rem, e⟩ := pr
+    simp only
+    refine ⟨(rem ++ (r.map cw).reverse).length, if e == -1 then 1 else 0, ?_, by simp⟩
+    split <;> simp
+  · -- not longer than n: the text itself, padded
+    unfold setCellSize
+    by_cases heq : cellLen cw (r ++ tl) = n
+    · have : (cellLen cw (r ++ tl) == n) = true := by simpa using heq
+      simp only [this, if_true]
+      exact ⟨(r ++ tl).length, 0, by rw [List.take_length]; simp, by simp⟩
+    · have h1 : (cellLen cw (r ++ tl) == n) = false := by simpa using heq
+      have h3 : cellLen cw (r ++ tl) < n := by omega
+      simp only [h1, Bool.false_eq_true, if_false, h3, if_true]
+      exact ⟨(r ++ tl).length, n - cellLen cw (r ++ tl), by rw [List.take_length], by simp⟩
 
 end Wrap
 end RichModel
